@@ -665,7 +665,10 @@ func (w *world) query(qi int, q Query) *hx.Failure {
 			var ok bool
 			plan, ok = explainPlan(w.idx, b)
 			if !ok {
-				w.o.label("explain-failed")
+				// the explain request itself failed (it can hit the same panics as the request):
+				// fall back on what the planner's rules say for the single-relation shapes
+				w.o.label("explain-failed-plan-predicted")
+				plan = w.predictPlan(b)
 			}
 			if tp, ok := explainPlan(w.twin, b); ok && tp.inverted() {
 				hx.Harnessf("the explain-based detection of join inversion fires on the twin without indexes: %s", b.body)
@@ -795,4 +798,24 @@ func (w *world) compare(qi int, b built, planName string, plan planInfo, ref str
 		}
 	}
 	return nil
+}
+
+// predictPlan applies the planner's inversion rule (tryOptimizeJoinDirection*): a non-complex filter
+// on an indexed field of the related type inverts the join, otherwise an order on such a field does.
+func (w *world) predictPlan(b built) planInfo {
+	r := w.tp.Rels[b.rel]
+	other := r.From
+	if b.fromTo {
+		other = r.To
+	}
+	if !w.c.idxN(other) {
+		return planInfo{}
+	}
+	switch b.class {
+	case "filter-from-holder", "filter-from-related", "count-filter-from-holder", "count-filter-from-related":
+		return planInfo{invertedByFilter: true}
+	case "order-from-holder", "order-from-related":
+		return planInfo{invertedByOrder: true}
+	}
+	return planInfo{}
 }
